@@ -766,7 +766,7 @@ def twist_cause(name, diag):
 
 def oracle_twists(ctx):
     rng = ctx.rng
-    N = ctx.n(600, 20000)
+    N = ctx.n(600, 8000)
     X, Y, Z, I = ('leaf', 0), ('leaf', 1), ('leaf', 2), ('id',)
     tlaws = [('assoc', ('mul', ('mul', X, Y), Z), ('mul', X, ('mul', Y, Z))),
              ('compose', ('mul', X, Y), None),
